@@ -78,7 +78,9 @@ struct Intent {
     #[serde(default)]
     pats: Vec<(u8, u8, u32)>,
     bs: u64,
-    /// none | dup | drop_flfi  (must complete);  drop | swap | resize (must not complete);  drop_flst (complete => exact)
+    /// none | dup | drop_flfi  (must complete);  drop | swap | resize | trunc (must not complete);  drop_flst (complete => exact).
+    /// Several intents may share one key (ecu, lc, serial): they are transfers sent one after the other under that key and
+    /// are listed in log order; the k-th of them belongs to the k-th transfer the plugin shows for the key.
     fault: String,
 }
 
@@ -685,6 +687,26 @@ fn silence_stdout<T, F: FnOnce() -> T>(f: F) -> T {
 }
 
 // ------------------------------------------------------------------ oracle: the property's statement on what the implementation did
+fn same_key(t: &Intent, i: &Item) -> bool {
+    t.ecu == i.ecu && t.lc as u64 == i.lc && t.serial == i.serial
+}
+/// The announced files a shown transfer may stand for.  Transfers under one key are numbered in log order on both sides
+/// (every announcement / first package without announcement opens a new transfer, the plugin lists them in this order):
+/// one intent for the key -> that one (whatever the number of items); as many items as intents -> the one with the same
+/// ordinal; otherwise the attribution is open and every intent of the key is a candidate.
+fn candidates<'a>(c: &'a CaseIn, o: &RunObs, idx: usize) -> Vec<&'a Intent> {
+    let it = &o.items[idx];
+    let group: Vec<&Intent> = c.intents.iter().filter(|t| same_key(t, it)).collect();
+    if group.len() <= 1 {
+        return group;
+    }
+    let mine: Vec<usize> = (0..o.items.len()).filter(|j| same_key(group[0], &o.items[*j])).collect();
+    if mine.len() == group.len() {
+        let pos = mine.iter().position(|j| *j == idx).unwrap();
+        return vec![group[pos]];
+    }
+    group
+}
 fn oracle(c: &CaseIn, r: &Result<RunObs, String>) -> Verdict {
     let fail = |cl: &str, d: String| Verdict::Fail { clause: cl.into(), detail: d };
     let o = match r {
@@ -722,10 +744,10 @@ fn oracle(c: &CaseIn, r: &Result<RunObs, String>) -> Verdict {
                 if i.state != 2 {
                     return fail("damaged_saved", format!("file {:?} saved for a transfer that is not complete", String::from_utf8_lossy(&f.0)));
                 }
-                if let Some(int) = c.intents.iter().find(|t| t.ecu == i.ecu && t.lc as u64 == i.lc && t.serial == i.serial) {
-                    if int.content() != f.1 {
-                        return fail("damaged_saved", format!("auto-saved {:?} differs from the transferred file", String::from_utf8_lossy(&f.0)));
-                    }
+                let idx = o.items.iter().position(|j| std::ptr::eq(j, i)).unwrap();
+                let cands = candidates(c, o, idx);
+                if !cands.is_empty() && !cands.iter().any(|t| t.content() == f.1) {
+                    return fail("damaged_saved", format!("auto-saved {:?} differs from the file transferred under its announcement", String::from_utf8_lossy(&f.0)));
                 }
             }
         }
@@ -738,33 +760,58 @@ fn oracle(c: &CaseIn, r: &Result<RunObs, String>) -> Verdict {
             }
         }
     }
-    for t in &c.intents {
-        let t_file = t.content();
-        let mine: Vec<&Item> = o.items.iter().filter(|i| i.ecu == t.ecu && i.lc == t.lc as u64 && i.serial == t.serial).collect();
-        let complete: Vec<&&Item> = mine.iter().filter(|i| i.state == 2).collect();
-        // whatever happened: a complete transfer's bytes are the file, bit-exactly
-        for i in &complete {
-            if let Some(b) = &i.bytes {
-                if b != &t_file {
-                    return fail("complete_exact", format!("serial {} complete with {} bytes that differ from the file ({} bytes), fault {}", t.serial, b.len(), t_file.len(), t.fault));
-                }
-            }
-            if i.size != t_file.len() as u64 {
-                return fail("complete_exact", format!("serial {} complete with size {} for a file of {} bytes", t.serial, i.size, t_file.len()));
-            }
+    // (1) every transfer reported complete holds exactly the bytes (size, name) of ONE file announced under its key,
+    //     the one sent under its own announcement -- never a mix of several transfers
+    for (idx, i) in o.items.iter().enumerate() {
+        if i.state != 2 {
+            continue;
         }
+        let cands = candidates(c, o, idx);
+        if cands.is_empty() {
+            continue;
+        }
+        let fits = |t: &&Intent| i.size == t.size() && i.bytes.as_ref().map(|b| *b == t.content()).unwrap_or(true) && (t.fault == "drop_flst" || i.name == t.name);
+        if !cands.iter().any(fits) {
+            let t = cands[0];
+            return fail(
+                "complete_exact",
+                format!(
+                    "serial {} (item {}) complete with {} that {} ({} bytes, name {:?}, fault {}){}",
+                    i.serial,
+                    idx,
+                    i.bytes.as_ref().map(|b| format!("{} bytes", b.len())).unwrap_or(format!("size {}", i.size)),
+                    if cands.len() == 1 { "differ from the file sent under this announcement" } else { "are none of the files announced under this key" },
+                    t.size(),
+                    String::from_utf8_lossy(&t.name),
+                    t.fault,
+                    if i.name != t.name && t.fault != "drop_flst" { format!(", shown under the name {:?}", String::from_utf8_lossy(&i.name)) } else { String::new() }
+                ),
+            );
+        }
+    }
+    // (2) per announced file: what its own transfer must (not) have become
+    for (ti, t) in c.intents.iter().enumerate() {
+        let ord = c.intents[..ti].iter().filter(|u| u.ecu == t.ecu && u.lc == t.lc && u.serial == t.serial).count();
+        let gl = c.intents.iter().filter(|u| u.ecu == t.ecu && u.lc == t.lc && u.serial == t.serial).count();
+        let mine: Vec<&Item> = o.items.iter().filter(|i| same_key(t, i)).collect();
+        // the transfer(s) that stand for this file: all items of the key when the key is used once, else the one with the same ordinal
+        let own: Vec<&Item> = if gl == 1 { mine.clone() } else if mine.len() == gl { vec![mine[ord]] } else { vec![] };
+        let complete: Vec<&&Item> = own.iter().filter(|i| i.state == 2).collect();
         match t.fault.as_str() {
             "none" | "dup" | "drop_flfi" => {
-                if mine.len() != 1 || complete.len() != 1 {
-                    return fail("inorder_complete", format!("serial {} (fault {}): {} items, {} complete, states {:?}", t.serial, t.fault, mine.len(), complete.len(), mine.iter().map(|i| i.state).collect::<Vec<_>>()));
+                if mine.len() != gl || complete.len() != 1 {
+                    return fail(
+                        "inorder_complete",
+                        format!("serial {} (transfer {} of {} under this key, fault {}): {} items, {} complete, states {:?}", t.serial, ord + 1, gl, t.fault, mine.len(), complete.len(), mine.iter().map(|i| i.state).collect::<Vec<_>>()),
+                    );
                 }
                 if c.cfg.allow_save && complete[0].bytes.is_none() {
-                    return fail("inorder_complete", format!("serial {}: complete but cannot be saved", t.serial));
+                    return fail("inorder_complete", format!("serial {} (transfer {} of {}): complete but cannot be saved", t.serial, ord + 1, gl));
                 }
             }
-            "drop" | "swap" | "resize" => {
+            "drop" | "swap" | "resize" | "trunc" => {
                 if !complete.is_empty() {
-                    return fail("fault_not_complete", format!("serial {} reported complete although fault {}", t.serial, t.fault));
+                    return fail("fault_not_complete", format!("serial {} (transfer {} of {} under this key) reported complete although fault {}", t.serial, ord + 1, gl, t.fault));
                 }
             }
             _ => {}
@@ -785,7 +832,11 @@ fn oracle(c: &CaseIn, r: &Result<RunObs, String>) -> Verdict {
                 _ => return fail("damaged_saved", format!("save #{} succeeded for transfer {} which is not complete", k, sv.idx)),
             };
             // the original content: the generator's intent if there is one, else what a save to a fresh file delivered
-            let want = c.intents.iter().find(|t| t.ecu == it.ecu && t.lc as u64 == it.lc && t.serial == it.serial).map(|t| t.content()).or(it.bytes.clone());
+            let cands = candidates(c, o, sv.idx as usize);
+            let want = match &sv.after {
+                Some(a) if cands.iter().any(|t| t.content() == *a) => Some(a.clone()),
+                _ => cands.first().map(|t| t.content()).or(it.bytes.clone()),
+            };
             match (&sv.after, want) {
                 (Some(a), Some(w)) if *a == w => {}
                 (Some(a), Some(w)) => {
@@ -793,6 +844,11 @@ fn oracle(c: &CaseIn, r: &Result<RunObs, String>) -> Verdict {
                 }
                 (None, _) => return fail("save_exact", format!("save #{} to {:?} reported success but there is no file", k, name)),
                 (_, None) => return fail("save_exact", format!("save #{}: success for a transfer without data", k)),
+            }
+            if let (Some(a), Some(b)) = (&sv.after, &it.bytes) {
+                if a != b {
+                    return fail("save_exact", format!("save #{} of transfer {} to {:?}: the file differs from what the same command wrote to a fresh file", k, sv.idx, name));
+                }
             }
             if !sv.creatable {
                 return fail("harness_parse", format!("save #{} to {:?} succeeded although the target cannot be created", k, name));
@@ -939,6 +995,33 @@ fn record(sink: &mut Sink, family: &str, c0: CaseIn) {
     if c.cfg.glob.is_some() {
         tags.push("autosave_cfg".into());
     }
+    {
+        // several transfers under one key; the same serial under several keys
+        let mut per_key: BTreeMap<(u32, u32, u64), Vec<&Intent>> = BTreeMap::new();
+        for t in &c.intents {
+            per_key.entry((t.ecu, t.lc, t.serial)).or_default().push(t);
+        }
+        for g in per_key.values() {
+            if g.len() >= 2 {
+                tags.push(format!("key_used_{}x", g.len().min(4)));
+                for w in g.windows(2) {
+                    let rel = if w[0].content() == w[1].content() { "same_file" } else if w[0].size() == w[1].size() { "same_size_other_content" } else { "other_size" };
+                    tags.push(format!("reannounce_{}_after_{}", rel, w[0].fault));
+                    if w[0].name != w[1].name {
+                        tags.push("reannounce_other_name".into());
+                    }
+                }
+            }
+        }
+        let keys: Vec<&(u32, u32, u64)> = per_key.keys().collect();
+        for (a, ka) in keys.iter().enumerate() {
+            for kb in &keys[a + 1..] {
+                if ka.2 == kb.2 {
+                    tags.push(if ka.0 != kb.0 { "serial_on_two_ecus".to_string() } else { "serial_in_two_lifecycles".to_string() });
+                }
+            }
+        }
+    }
     if let Ok(o) = &r {
         for sv in &o.saves {
             let prior = match (&sv.before, sv.after.as_ref().map(|a| a.len())) {
@@ -1001,6 +1084,8 @@ enum Fault {
     Resize(usize, bool),
     DropFlst,
     DropFlfi,
+    /// the transfer breaks off: only packages 1..=j are sent (j < n); with `true` the end marker still arrives
+    Trunc(usize, bool),
 }
 fn fault_name(f: &Fault) -> &'static str {
     match f {
@@ -1011,6 +1096,7 @@ fn fault_name(f: &Fault) -> &'static str {
         Fault::Resize(..) => "resize",
         Fault::DropFlst => "drop_flst",
         Fault::DropFlfi => "drop_flfi",
+        Fault::Trunc(..) => "trunc",
     }
 }
 fn chunks(p: &Plan) -> Vec<Vec<u8>> {
@@ -1034,6 +1120,11 @@ fn transfer_msgs(p: &Plan, f: &Fault) -> Vec<Msg> {
         if *f == Fault::Drop(j) {
             continue;
         }
+        if let Fault::Trunc(upto, _) = f {
+            if j > *upto {
+                continue;
+            }
+        }
         let mut payload = ch[j - 1].clone();
         if let Fault::Resize(k, longer) = f {
             if *k == j {
@@ -1051,7 +1142,7 @@ fn transfer_msgs(p: &Plan, f: &Fault) -> Vec<Msg> {
             }
         }
     }
-    if *f != Fault::DropFlfi {
+    if *f != Fault::DropFlfi && !matches!(f, Fault::Trunc(_, false)) {
         v.push(mk(Body::Flfi { be: p.be, sty: p.sty, serial: p.serial }, 3));
     }
     v
@@ -1757,6 +1848,245 @@ fn save_cases(sink: &mut Sink, rng: &mut Rng, tier: &str) {
     }
 }
 
+// ------------------------------------------------------------------ several transfers over time under one key, and colliding keys
+/// One lane = one key (ecu, lifecycle, serial) with the transfers sent under it one after the other (a later announcement
+/// re-uses the key: the same file sent again, a new file under a recycled serial, a retry after a broken transfer).
+/// Lanes are interleaved with each other (their keys differ, possibly only in the ECU or only in the lifecycle).
+/// `saves`: also issue manual save commands for every expected transfer number.
+fn rekey_case(rng: &mut Rng, cfg: Cfg, lanes: Vec<Vec<(Plan, Fault)>>, noise: u64, saves: bool) -> CaseIn {
+    let mut seqs = vec![];
+    let mut intents = vec![];
+    let mut plans = vec![];
+    for lane in &lanes {
+        let mut seq = vec![];
+        for (p, f) in lane {
+            seq.extend(transfer_msgs(p, f));
+            intents.push(intent(p, f));
+        }
+        plans.push(lane[0].0.clone());
+        seqs.push(seq);
+    }
+    let msgs = if seqs.len() == 1 && noise == 0 { seqs.concat() } else { interleave(rng, seqs, &plans, noise, cfg.apid.is_some()) };
+    let mut c = CaseIn { cfg, msgs, intents, isolate: false, probe: None, spre: vec![], sdirs: vec![], sreadonly: vec![], saves: vec![] };
+    if saves {
+        let n = c.intents.len() as u64;
+        // every transfer number to its own file, then all of them over one file (a shorter one after a longer one included)
+        for i in 0..n.min(4) {
+            c.saves.push((i, format!("own{}.bin", i).into_bytes()));
+        }
+        c.spre.push((b"one.bin".to_vec(), junk(9, 3)));
+        for i in (0..n.min(4)).rev() {
+            c.saves.push((i, b"one.bin".to_vec()));
+        }
+    }
+    c
+}
+fn sty_for(rng: &mut Rng, serial: u64) -> u8 {
+    if serial < 128 {
+        *rng.pick(&[1u8, 2, 3, 5, 6, 7])
+    } else if serial < (1 << 31) {
+        *rng.pick(&[2u8, 3, 6, 7])
+    } else if serial < (1 << 63) {
+        *rng.pick(&[3u8, 3, 7])
+    } else {
+        *rng.pick(&[3u8, 3, 3]) // only an unsigned 64-bit argument holds it
+    }
+}
+/// a file of n packages of bs bytes, the last one `last` bytes; short files random, longer ones pattern-wise (compact on the Coq side)
+fn rekey_file(rng: &mut Rng, n: u64, bs: u64, last: u64) -> Vec<u8> {
+    if bs > 24 {
+        pattern_file(rng, n, bs, last)
+    } else {
+        file_bytes(rng, ((n - 1) * bs + last) as usize)
+    }
+}
+/// the next transfer under the key of `prev`: how it relates to the previous one
+/// 0 same size and segmentation, other content; 1 identical file; 2 one package more; 3 fewer bytes (last package shorter or one
+/// package less); 4 same size, other package size; 5 unrelated size
+fn rekey_next(rng: &mut Rng, prev: &Plan, variant: u64, same_name: bool, k: usize) -> Plan {
+    let len = prev.file.len() as u64;
+    let bs = prev.bs;
+    let n = (len + bs - 1) / bs;
+    let last = len - (n - 1) * bs;
+    let (file, nbs) = match variant {
+        0 => {
+            let mut f = rekey_file(rng, n, bs, last);
+            if f == prev.file {
+                f[0] = f[0].wrapping_add(1);
+            }
+            (f, bs)
+        }
+        1 => (prev.file.clone(), bs),
+        2 => {
+            let l = rng.range(1, bs);
+            (rekey_file(rng, n + 1, bs, l), bs)
+        }
+        3 => {
+            if len > 1 {
+                let mut f = rekey_file(rng, n, bs, last);
+                f.truncate((len - 1 - rng.below((len - 1).min(bs))) as usize);
+                (f, bs)
+            } else {
+                (rekey_file(rng, 1, bs, 1), bs)
+            }
+        }
+        4 => {
+            let nb = if bs > 1 && rng.chance(1, 2) { bs - 1 } else { bs + 1 };
+            let n2 = (len + nb - 1) / nb;
+            (rekey_file(rng, n2, nb, len - (n2 - 1) * nb), nb)
+        }
+        _ => {
+            let nb = rng.range(1, 6);
+            let n2 = rng.range(1, 5);
+            let l = rng.range(1, nb);
+            (rekey_file(rng, n2, nb, l), nb)
+        }
+    };
+    let name = if same_name { prev.name.clone() } else { format!("again{}/v{}.bin", k, k).into_bytes() };
+    Plan { name, file, bs: nbs, be: rng.chance(1, 3), sty: sty_for(rng, prev.serial), sty2: *rng.pick(&[6u8, 6, 2, 0, 5]), raw_ti: if rng.chance(1, 6) { TI_STRG } else { TI_RAWD }, ..prev.clone() }
+}
+/// faults of a transfer that is followed by another one under the same key (or is the last one)
+fn rekey_faults(n: usize, first: bool) -> Vec<Fault> {
+    let mut v = vec![Fault::None, Fault::DropFlfi, Fault::Dup(1, n), Fault::Drop(n), Fault::Drop(1), Fault::Trunc(0, false), Fault::Trunc(n - 1, true), Fault::Resize(n, false), Fault::Resize(1, true)];
+    if n >= 2 {
+        v.extend([Fault::Swap(1), Fault::Trunc(1, false), Fault::Trunc(n - 1, false), Fault::Dup(n - 1, n - 1), Fault::Drop(n - 1)]);
+    }
+    if n >= 3 {
+        v.extend([Fault::Drop(2), Fault::Trunc(n - 2, true), Fault::Swap(n - 1)]);
+    }
+    if first {
+        v.push(Fault::DropFlst); // only the first transfer of a key: a later one without announcement cannot be told from late packages of the earlier one
+    }
+    v
+}
+fn rekey_cfg(k: u64) -> Cfg {
+    match k % 5 {
+        0 | 1 => Cfg { keep_flda: k % 2 == 0, ..std_cfg() },
+        2 => autosave_cfg(true, "*", ""),
+        3 => autosave_cfg(false, "*", "/"),
+        _ => Cfg { apid: None, ctid: None, ..autosave_cfg(k % 2 == 0, "**/*.bin", "") },
+    }
+}
+fn rekey_cases(sink: &mut Sink, rng: &mut Rng, tier: &str) {
+    let quick = tier == "quick";
+    let mut k = 0u64;
+    // (a) two transfers under one key: every outcome of the first one x every relation of the second one to it
+    let mut j = 0u64;
+    for n in 1..=4u64 {
+        for f in rekey_faults(n as usize, true) {
+            j += 1;
+            for v in 0..6u64 {
+                k += 1;
+                // quick: the "same size, other content" relation always, two of the other five in turn
+                if quick && !(v == 0 || v == 1 + j % 5 || v == 1 + (j + 2) % 5) {
+                    continue;
+                }
+                let bs = [1u64, 2, 4, 3, 7, 40][(k % 6) as usize];
+                let last = if k % 3 == 0 { bs } else { 1 + (k % bs) };
+                let serial = [17u64, 0, 1, 255, 65535, 65536, (1 << 32) + 5][(k % 7) as usize];
+                let p1 = Plan { sty: sty_for(rng, serial), be: k % 4 == 0, ..simple_plan(serial, if k % 3 == 1 { b"dir/app.log" } else { b"app.bin" }, rekey_file(rng, n, bs, last), bs) };
+                let p2 = rekey_next(rng, &p1, v, k % 4 != 3, 2);
+                let n2 = chunks(&p2).len();
+                let f2 = match k % 9 {
+                    0 => Fault::Dup(1, n2),
+                    1 => Fault::DropFlfi,
+                    2 => Fault::Drop(n2),
+                    _ => Fault::None,
+                };
+                let mut lanes = vec![vec![(p1.clone(), f.clone()), (p2.clone(), f2.clone())]];
+                if f2 == Fault::Drop(n2) {
+                    // third attempt, intact
+                    let p3 = rekey_next(rng, &p2, k % 2, true, 3);
+                    lanes[0].push((p3, Fault::None));
+                }
+                if k % 4 == 1 {
+                    // a bystander with the same serial on another ECU / in another lifecycle, sending the first file's bytes
+                    let q = if k % 8 == 1 { Plan { ecu: c4("ECU2"), name: b"other_ecu.bin".to_vec(), ..p1.clone() } } else { Plan { lc: p1.lc + 1, name: b"other_lc.bin".to_vec(), ..p1.clone() } };
+                    lanes.push(vec![(q, Fault::None)]);
+                }
+                let c = rekey_case(rng, rekey_cfg(k), lanes, k % 3, k % 5 < 2 && k % 2 == 0);
+                record(sink, "rekey", c);
+            }
+        }
+    }
+    // (b) the same serial on several ECUs and in several lifecycles at once, each key used one or more times
+    let n_coll = if quick { 24 } else { 120 };
+    for _ in 0..n_coll {
+        k += 1;
+        let serial = *rng.pick(&[0u64, 1, 17, 255, 256, 65535, 65536, (1 << 32) + 5, u64::MAX - 1]);
+        let keys = [(c4("ECU1"), 1u32), (c4("ECU2"), 1), (c4("ECU1"), 2), (c4("ECU2"), 2), (c4("ECU1"), 0)];
+        let nl = rng.range(2, 4) as usize;
+        let mut lanes = vec![];
+        for (li, (ecu, lc)) in keys.iter().take(nl).enumerate() {
+            let n = rng.range(1, 4);
+            let bs = rng.range(1, 5);
+            let last = rng.range(1, bs);
+            // all lanes announce the same name, size and segmentation (only the content tells them apart) in two of three cases
+            let (n, bs, last) = if k % 3 != 0 { (3, 2, 1 + (k % 2)) } else { (n, bs, last) };
+            let p = Plan { ecu: *ecu, lc: *lc, sty: sty_for(rng, serial), be: rng.chance(1, 3), ..simple_plan(serial, if k % 2 == 0 { b"same.bin".to_vec() } else { format!("lane{}.bin", li).into_bytes() }.as_slice(), rekey_file(rng, n, bs, last), bs) };
+            let gens = if li == 0 || rng.chance(1, 2) { rng.range(2, 3) } else { 1 };
+            let mut lane = vec![];
+            let mut prev = p.clone();
+            for g in 0..gens {
+                let (v, sn) = (*rng.pick(&[0u64, 0, 0, 1, 2, 3, 4, 5]), rng.chance(2, 3));
+                let pl = if g == 0 { p.clone() } else { rekey_next(rng, &prev, v, sn, g as usize + 1) };
+                let nn = chunks(&pl).len();
+                let fs = rekey_faults(nn, g == 0);
+                let f = if rng.chance(1, 2) { Fault::None } else { rng.pick(&fs).clone() };
+                prev = pl.clone();
+                lane.push((pl, f));
+            }
+            lanes.push(lane);
+        }
+        let noise = rng.below(3);
+        let (ck, sv) = (rng.below(10), rng.chance(1, 4));
+        let c = rekey_case(rng, rekey_cfg(ck), lanes, noise, sv);
+        record(sink, "rekey_collide", c);
+    }
+    // (c) random histories: 1..3 keys, up to four transfers per key, larger packages, random configuration
+    let n_rand = match tier {
+        "quick" => 90,
+        "search" => 400,
+        _ => 1500,
+    };
+    for _ in 0..n_rand {
+        k += 1;
+        let nl = rng.range(1, 3) as usize;
+        let base = *rng.pick(&[3u64, 17, 200, 65535, 70000]);
+        let mut lanes = vec![];
+        for li in 0..nl {
+            let (ecu, lc, serial) = match li {
+                0 => (c4("ECU1"), 1, base),
+                1 => *rng.pick(&[(c4("ECU2"), 1, base), (c4("ECU1"), 0, base), (c4("ECU1"), 1, base + 1)]),
+                _ => (c4("ABCD"), 2, base),
+            };
+            let bs = *rng.pick(&[1u64, 2, 3, 4, 5, 8, 8, 30, 100, 300]);
+            let n = rng.range(1, 5);
+            let last = if rng.chance(1, 2) { bs } else { rng.range(1, bs) };
+            let name = if rng.chance(1, 2) { format!("r{}.bin", li).into_bytes() } else { rng.pick(NAMES).as_bytes().to_vec() };
+            let p = Plan { ecu, lc, sty: sty_for(rng, serial), be: rng.chance(1, 3), ..simple_plan(serial, &name, rekey_file(rng, n, bs, last), bs) };
+            let gens = if li == 0 { rng.range(2, 4) } else { rng.range(1, 3) };
+            let mut lane = vec![];
+            let mut prev = p.clone();
+            for g in 0..gens {
+                let (v, sn) = (*rng.pick(&[0u64, 0, 0, 1, 1, 2, 3, 4, 5]), rng.chance(1, 2));
+                let pl = if g == 0 { p.clone() } else { rekey_next(rng, &prev, v, sn, g as usize + 1) };
+                let nn = chunks(&pl).len();
+                let fs = rekey_faults(nn, g == 0);
+                let f = if rng.chance(2, 5) { Fault::None } else { rng.pick(&fs).clone() };
+                prev = pl.clone();
+                lane.push((pl, f));
+            }
+            lanes.push(lane);
+        }
+        let cfg = gen_cfg(rng);
+        let noise = rng.below(4);
+        let saves = cfg.allow_save && rng.chance(1, 3);
+        let c = rekey_case(rng, cfg, lanes, noise, saves);
+        record(sink, "rekey_random", c);
+    }
+}
+
 /// one probe of the pre-allocation cap: announced transfer larger than MAX_PREALLOC_SIZE (64 MiB); returns the verdict
 fn prealloc_probe(nr: u64, bs: u64) -> Verdict {
     let fail = |cl: &str, d: String| Verdict::Fail { clause: cl.into(), detail: d };
@@ -1852,6 +2182,11 @@ fn main() {
     sweep(&mut sink, &mut rng, sweep_n);
     sized_cases(&mut sink, &mut rng, &a.tier);
     save_cases(&mut sink, &mut rng, &a.tier);
+    {
+        // own random stream: the families above and below keep their inputs
+        let mut rng2 = Rng::new(a.seed ^ 0x5eed_0176);
+        rekey_cases(&mut sink, &mut rng2, &a.tier);
+    }
     if a.tier != "search" && std::env::var("C17_NO_PREALLOC_PROBE").is_err() {
         // 1040 packages of 65000 bytes = 64.5 MiB, just above the 64 MiB pre-allocation cap
         record(&mut sink, "prealloc_probe", CaseIn { cfg: std_cfg(), msgs: vec![], intents: vec![], isolate: false, probe: Some((1040, 65000)), spre: vec![], sdirs: vec![], sreadonly: vec![], saves: vec![] });
